@@ -12,6 +12,10 @@ let rec run_case (kind : string) (body : sexp list) : string * string =
       (show_trace (run_src src us), show_trace (uchain_spec us (src_spec src)))
   | "hotchain" ->
       let calls = List.map ev_of (args (List.nth body 0)) in
+      (* (cut K _): the subscription is unsubscribed after K calls: the rest reaches nobody *)
+      let calls = (match List.nth_opt body 2 with
+                   | Some c -> let k = int_of (List.hd (args c)) in List.filteri (fun i _ -> i < k) calls
+                   | None -> calls) in
       let us = List.map uop_of (args (List.nth body 1)) in
       (show_trace (run_hot (expand_all us) (slot calls)), show_trace (uchain_spec us (slot calls)))
   | "chain_t" -> run_case "chain" body
@@ -22,7 +26,9 @@ let rec run_case (kind : string) (body : sexp list) : string * string =
       let (hot_a, script_a) = input (List.nth body 1) in
       let (hot_b, script_b) = input (List.nth body 2) in
       let side_ev s = ((match head s with "a" -> A | "b" -> B | _ -> failwith "bad side"), ev_of (List.hd (args s))) in
-      let hot_tl = List.map side_ev (args (List.nth body 3)) in
+      (* the timeline ends where the subscription is unsubscribed *)
+      let rec upto = function [] -> [] | x :: r -> (match head x with "u" | "ud" -> [] | _ -> x :: upto r) in
+      let hot_tl = List.map side_ev (upto (args (List.nth body 3))) in
       (* a cold input emits its script during its own subscription, in subscription order *)
       let cold sd hot script = if hot then [] else List.map (fun e -> (sd, e)) (slot script) in
       let ca = cold A hot_a script_a and cb = cold B hot_b script_b in
@@ -135,7 +141,10 @@ let oracle (kind : string) (body : sexp list) (impl : string) : string option =
         | List [Atom "m"; j] -> FMark (narg j)
         | _ -> failwith "bad fout" in
       let out = (match parse ("(" ^ impl ^ ")") with List l -> List.map fout_of l | _ -> []) in
-      if not (peak_ok lim O out) then Some "reject:C05_limit"
+      let sts = List.map fstim_of (args (List.nth body 3)) in
+      if not (silent_after_unsub sts false out) then Some "reject:C02 (a delivery or an inner subscription after unsubscribe() returned)"
+      else if List.mem FUnsub sts then Some "ok"
+      else if not (peak_ok lim O out) then Some "reject:C05_limit"
       else if not (wf (downstream out)) then Some "reject:C05_downstream_wf"
       else if not (subs_increasing O out) then Some "reject:inner observables subscribed out of outer order"
       else if not (completion_ok lim (List.map fstim_of (args (List.nth body 3))) out)
